@@ -30,6 +30,7 @@ class MSSQLQueryBuilder(QueryBuilder):
     def __init__(self, **kwargs: Any) -> None:
         super().__init__(**kwargs)
         self._top: int | None = None
+        self._paginates_set_operation = False
 
     @builder
     def top(self, value: str | int) -> MSSQLQueryBuilder:  # type:ignore[return]
@@ -53,7 +54,9 @@ class MSSQLQueryBuilder(QueryBuilder):
     def _offset_sql(self, ctx: SqlContext) -> str:
         order_by = ""
         if not self._orderbys:
-            order_by = " ORDER BY (SELECT 0)"
+            # OFFSET needs an ORDER BY. A set operation may only be ordered by items of its select list
+            # (Msg 104), so its neutral ordering is a column position rather than a constant subquery.
+            order_by = " ORDER BY 1" if self._paginates_set_operation else " ORDER BY (SELECT 0)"
         return order_by + " OFFSET {offset} ROWS".format(
             offset=self._offset.get_sql(ctx) if self._offset is not None else 0
         )
